@@ -146,7 +146,7 @@ ADDENDA = {
  "C14": "; commit/reveal binding rule for chain-key contributions; must-pass-through rule for the chain-key combination on both Doerner sides",
  "C15": "; inverse-mapping rule between marshal and unmarshal; no-omitempty rule on wire structs; own-entry-from-secret rule in the CMP config decoder; decoded-pointer nil rule",
  "C16": "; R/S in-place pairing rule on SigEthereum; nonce-mask-from-adjusted-key rule; hash-to-scalar excess rule",
- "C19": "; total-writer and complete-writer rules over all WriterToWithDomain implementers; used-result rule over effect summaries; zero-buffer-length rule in Validate; fixed-width encoding width table",
+ "C19": "; total-writer and complete-writer rules over all WriterToWithDomain implementers; used-result rule over effect summaries; zero-buffer-length rule in Validate; fixed-width encoding width table; accumulating-sink rule on WriteAny; tagged-literal payload rule and one-tag-one-item rule on ad-hoc domains",
  "C20": "; slice-coverage rule for per-element validation loops (IDSlice.Valid)",
 }
 for _p, _a in ADDENDA.items():
